@@ -158,7 +158,7 @@ func (t StringCharTuple) MustGet(name string) Value {
 // With returns a Tuple with all name/Value pairs in t (except the one for the
 // given name, if present) with the addition of the given name/Value pair.
 func (t StringCharTuple) With(name string, value Value) Tuple {
-	return maybeNewCharTupleFromTuple(t.asGenericTuple().With(name, value))
+	return t.asGenericTuple().With(name, value)
 }
 
 // Without returns a Tuple with all name/Value pairs in t exception the one of
